@@ -1,5 +1,6 @@
 import QtVerif.Model.Faults
 import QtVerif.Proofs.FaultsH
+import QtVerif.Proofs.FaultsL
 /-!
 # C15 — a failing port driver does not disturb other ports
 
@@ -30,7 +31,8 @@ namespace QtVerif.C15
 open QtVerif.Faults
 
 /-- FULL statement of the property's first sentence, NOT proved (and false as it stands, see `extra_pass_observable`
-at the end of this file): also the polling passes that the faulty ports' writes cause are erased from the schedule —
+below; the version with the natural hypothesis is `noninterference_full_under_stability`): also the polling passes
+that the faulty ports' writes cause are erased from the schedule —
 the healthy ports' events and write results are the same whichever of the `pass .other` actions are dropped.  The
 theorems below (`…_partial`) fix the schedule of passes instead. -/
 def noninterferenceFull : Prop :=
@@ -68,6 +70,62 @@ theorem noninterference_values_events_partial (H : PortId → Bool) (P : Params)
   refine ⟨congrArg State.trace h, ?_⟩
   have hp := congrArg (fun s => s.ports.map (fun q => (q.id, q.last))) h
   simpa [proj, rport, Function.comp_def] using hp
+
+/-! ### The full statement under the stability hypothesis
+
+`Stable E H`: every read of a healthy port succeeds and returns its driver's register (so between two world changes —
+`setSrc`, a driver write — every pass reads the same value), its heart beats and the handlers on its events raise
+errors at most.  `abs` is the effect view of a state (ports without their polling counters: values, registers,
+queues, write counters; the ordered trace of events, driver writes and write results; the forced-evaluation flag).
+`shape σ` forgets kind and time of the passes and drops every pass that comes after another pass with only
+evaluations / submissions in between (`squash`): two schedules of the same shape make the same world changes,
+submissions, evaluations and driver writes in the same order and poll at least once between the same ones of them. -/
+
+/-- **Key lemma: an extra pass over a stable, settled world is the identity on the effect view** — no event, no value
+change, no driver write, no evaluation request — whatever its kind and time. -/
+theorem extra_pass_over_stable_world_is_identity (H : PortId → Bool) (P : Params) (E : Env) (hst : Stable E H)
+    (k : PassKind) (now : Nat) (s : State) (hinv : InvH H s) (hs : SettledA (abs s)) :
+    abs (pass P E k now s) = abs s :=
+  abs_pass_settled H P E hst k now s hinv hs
+
+/-- … and every pass leaves such a world settled, so only the FIRST pass after a world change matters. -/
+theorem pass_settles_stable_world (H : PortId → Bool) (P : Params) (E : Env) (hst : Stable E H) (k : PassKind)
+    (now : Nat) (s : State) (hinv : InvH H s) : SettledA (abs (pass P E k now s)) := by
+  rw [(abs_pass H P E hst k now s hinv).1]; exact (apass_settles P E (abs s)).1
+
+/-- **Non-interference, full statement, under stability.**  Faulty ports raising errors at any time, healthy set
+closed under dependencies, healthy drivers stable: the run WITH the faulty ports on any schedule `σ` and the run
+WITHOUT them on any schedule `σ'` of the same shape — the passes that the faulty ports' writes and faults add, remove,
+delay or turn from a tick into a confirming pass are all covered, pass times are free — end in the same effect view
+on the healthy ports: same values, registers, pending evaluations and writes, same ordered sequence of value-change
+events, driver writes and write results.  (Being for all `σ`, `σ'`, it holds at every pair of prefixes of equal shape,
+in particular at every world-change boundary.)  `extra_pass_observable` shows that the stability hypothesis cannot
+be dropped. -/
+theorem noninterference_full_under_stability (H : PortId → Bool) (P : Params) (E : Env)
+    (hs : Safe E H) (hcl : Closed E H) (hfr : Frame E H) (hst : Stable E H) (σ σ' : List Action) (s : State)
+    (herr : ∀ e ∈ s.errs, H e.1 = false) (hal : s.loopAlive = true)
+    (hsh : shape (σ.filter (keep H)) = shape σ') :
+    abs (proj H (run P E s σ)) = abs (run P E (proj H s) σ') := by
+  have hinv := proj_invH H s herr hal
+  rw [run_proj H P E hs hcl hfr, abs_run H P E hst _ _ hinv, abs_run H P E hst _ _ hinv]
+  exact arun_shape P E _ (abs_effonly _) _ _ hsh
+
+/-- The same, spelled out: equal (id, value, register) tables of the healthy ports and equal ordered sequences of
+their value-change events, driver writes and write results (hence equal event sequences per healthy port). -/
+theorem noninterference_full_values_events (H : PortId → Bool) (P : Params) (E : Env)
+    (hs : Safe E H) (hcl : Closed E H) (hfr : Frame E H) (hst : Stable E H) (σ σ' : List Action) (s : State)
+    (herr : ∀ e ∈ s.errs, H e.1 = false) (hal : s.loopAlive = true)
+    (hsh : shape (σ.filter (keep H)) = shape σ') :
+    ((run P E s σ).ports.filter (fun q => H q.id)).map (fun q => (q.id, q.last, q.reg))
+      = (run P E (proj H s) σ').ports.map (fun q => (q.id, q.last, q.reg)) ∧
+    (run P E s σ).trace.filter (fun o => o.isEffect && H o.port)
+      = (run P E (proj H s) σ').trace.filter (fun o => o.isEffect) := by
+  have h := noninterference_full_under_stability H P E hs hcl hfr hst σ σ' s herr hal hsh
+  constructor
+  · have hp := congrArg (fun A => A.ports.map (fun q => (q.id, q.last, q.reg))) h
+    simpa [abs, proj, strip, rport, Function.comp_def] using hp
+  · have ho := congrArg AState.out h
+    simpa [abs, proj, List.filter_filter] using ho
 
 /-- **A failing port keeps its last good value**: a port whose driver fails (SkipRead, Exception, or worse) on
 every read keeps its last read value through every schedule, whatever the other ports do. -/
@@ -265,5 +323,25 @@ theorem extra_pass_observable : ¬ noninterferenceFull := by
     (.keep _ (.drop 100 (.keep _ (.keep _ .nil))))
   revert this
   decide
+
+/-! ## Instance of `noninterference_full_under_stability` -/
+
+example : Stable exE exH := by
+  intro p hp
+  simp only [exH, Bool.or_eq_true, beq_iff_eq] at hp
+  rcases hp with rfl | rfl <;> refine ⟨fun n => rfl, fun n => ?_, fun j now o n => ?_⟩ <;> simp [exE]
+
+/-- the schedule of the hub without the faulty ports: no actions on ports 0 and 3, no confirming pass after the faulty
+port 3's failed write, and the polling happens at other times -/
+def exσ' : List Action :=
+  [.pass .loop 200, .eval 2, .write 2, .pass .other 200, .setSrc 1 (some 4), .pass .loop 207, .pass .other 207, .eval 2,
+   .write 2, .pass .other 207, .apiWrite 1 (some 8) 0, .write 1, .pass .other 209, .eval 2, .write 2, .pass .loop 230]
+
+example : shape (exσ.filter (keep exH)) = shape exσ' := by decide
+
+example : (∀ e ∈ exS.errs, exH e.1 = false) ∧ exS.loopAlive = true := by decide
+
+/-- the conclusion on this instance, computed -/
+example : abs (proj exH (run exP exE exS exσ)) = abs (run exP exE (proj exH exS) exσ') := by decide +kernel
 
 end QtVerif.C15
